@@ -31,7 +31,7 @@ FILE_ROUTES = ('file', 'file_len', 'file_off', 'file_off_len', 'handle', 'handle
 READ_OPS = ('len', 'bool', 'iter', 'getitem', 'getslice', 'add', 'radd', 'mul', 'rmul', 'invert', 'lshift', 'rshift', 'and', 'or', 'xor',
             'eq', 'ne', 'eq_lit', 'hash', 'contains', 'find', 'rfind', 'findall', 'count', 'all', 'any', 'startswith', 'endswith',
             'cut', 'split', 'join', 'tobytes', 'bytes', 'tobitarray', 'tofile', 'unpack', 'interp', 'str', 'pp', 'copy', 'to_cls',
-            'and_twin', 'add_twin', 'array_from', 'hash_eq', 'pack_bits', 'in_set')
+            'and_twin', 'add_twin', 'array_from', 'hash_eq', 'pack_bits', 'in_set', 'eq_fresh', 'eq_fresh')
 STREAM_OPS = ('read', 'peek', 'readlist', 'setpos', 'readto', 'bytealign', 'getpos')
 MUT_OPS = ('append', 'prepend', 'insert', 'overwrite', 'delslice', 'delitem', 'setitem', 'setslice', 'set', 'invert_ip', 'reverse', 'rol',
            'ror', 'byteswap', 'ilshift', 'irshift', 'imul', 'iand', 'ior', 'ixor', 'clear', 'replace', 'iadd', 'prop')
@@ -182,29 +182,27 @@ class ERoute(Engine):
         if route in ('file', 'handle'):
             # whole file (no slack possible): lazily mapped
             self.path = self.fs.new_file(bits_to_bytes(bits + '0' * ((-n) % 8)))
-            if route == 'file':
-                return C(filename=self.path)
-            with open(self.path, 'rb') as h:
-                return C(h)
+            self.remake = (lambda: C(filename=self.path)) if route == 'file' else (lambda: _with_handle(self.path, lambda h: C(h)))
+            return self.remake()
         if route in ('file_len', 'handle_len'):
             self.path = self.fs.new_file(filedata('', bits))
             self.probe('file_route_length_shorter_than_file')
             if route == 'file_len':
-                return C(filename=self.path, length=n) if n % 2 else C(filename=self.path, length=n, offset=0)
-            with open(self.path, 'rb') as h:
-                return C(h, length=n)
+                self.remake = (lambda: C(filename=self.path, length=n)) if n % 2 else (lambda: C(filename=self.path, length=n, offset=0))
+            else:
+                self.remake = lambda: _with_handle(self.path, lambda h: C(h, length=n))
+            return self.remake()
         if route in ('file_off', 'handle_off'):
             body = bits + '0' * ((-(off + n)) % 8)       # to the end of the file: no slack after it
             self.path = self.fs.new_file(bits_to_bytes('1' * off + body))
             self.cfg_bits_override = body
-            if route == 'file_off':
-                return C(filename=self.path, offset=off)
-            with open(self.path, 'rb') as h:
-                return C(h, offset=off)
+            self.remake = (lambda: C(filename=self.path, offset=off)) if route == 'file_off' else (lambda: _with_handle(self.path, lambda h: C(h, offset=off)))
+            return self.remake()
         if route == 'file_off_len':
             self.path = self.fs.new_file(filedata('1' * off, bits))
             self.probe('file_route_length_shorter_than_file')
-            return C(filename=self.path, offset=off, length=n)
+            self.remake = lambda: C(filename=self.path, offset=off, length=n)
+            return self.remake()
         return C(bin=bits)
 
     def cleanup(self):
@@ -307,6 +305,14 @@ class ERoute(Engine):
             return [x == other_self, other_self == x, x != other_self, x == eqlen]
         if op == 'ne':
             return x != L
+        if op == 'eq_fresh':
+            # another object made by the SAME route from the SAME source (same file, same BytesIO content ...): equality
+            # must be decided by the bits each side holds now, not by where they once came from
+            remake = getattr(self, 'remake', None)
+            st, y = call(remake) if (remake is not None and not getattr(self, 'unlinked', False)) else call(self._build, self.cfg, self.cls)
+            if st != 'ok':
+                return None
+            return [x == y, y == x, x != y, y.bin == kernel.safe_bin(y)]
         if op == 'eq_lit':
             return [x == L, x == lit(x.bin), x == x.tobytes() if len(x) % 8 == 0 else None, x == 3, x == None]   # noqa
         if op == 'hash':
@@ -560,6 +566,11 @@ def _flat_bits(v, out=None, depth=0):
         for i in v[:8]:
             _flat_bits(i, out, depth + 1)
     return out
+
+
+def _with_handle(path, fn):
+    with open(path, 'rb') as h:
+        return fn(h)
 
 
 def _short(o):
